@@ -152,6 +152,7 @@ static Final observe(Engine& E, Rng& r, bool final_obs, bool need8 = false) {
     VF_CHECK(ulgk <= E.lg_max_k && ulgk >= 4, "union|lg_k|outside-4..lg_max_k-after-reset", ctx + " observed=" + std::to_string(ulgk));
   }
   const int only = final_obs ? -1 : static_cast<int>(r.below(3));
+  double comp[3] = {-1, -1, -1};
   for (int t = 2; t >= 0; --t) {
     if (only >= 0 && t != only && !(need8 && t == 2)) continue;
     hll_sketch res = E.u->get_result(tgt(t));
@@ -170,7 +171,16 @@ static Final observe(Engine& E, Rng& r, bool final_obs, bool need8 = false) {
       compare_content(E, d8, std::string("hll8-copy-of-") + type_name(t), tctx);
     }
     VF_CHECK(res.is_empty() == !E.any_offered, "union|result|is_empty", tctx + " reported=" + (res.is_empty() ? "empty" : "non-empty"));
+    comp[t] = res.get_composite_estimate();
     if (t == 2 && d.err.empty()) { F.valid = true; F.lg_k = d.lg_k; F.mode = d.mode; F.coupons = d.coupons; F.regs = d.regs; }
+  }
+  // results of the three types hold identical content, so (C03) their composite estimates agree: a result
+  // whose estimator registers were not brought up to date with its registers shows up here
+  for (int t = 0; t < 2; ++t) {
+    if (comp[t] < 0 || comp[2] < 0) continue;
+    VF_CHECK(rel_eq(comp[t], comp[2], 1e-12), "union|get_result|composite-estimate-differs-across-result-types",
+             ctx + " " + type_name(t) + "=" + str(comp[t]) + " hll8=" + str(comp[2]));
+    count("result_composite_comparisons");
   }
   VF_CHECK(E.u->is_empty() == !E.any_offered, "union|is_empty", ctx + " reported=" + (E.u->is_empty() ? "empty" : "non-empty"));
   return F;
